@@ -229,6 +229,7 @@ def unpackTar {σ : Type} (H : Bytes → Bytes) (ops : FsOps σ) (myUid myGid : 
   | .ok st =>
     if fin = .corrupt then .err .wareCorrupt else
     if st.pre = [] then .err .wareCorrupt else             -- no entries at all
+    if st.post = [] then .err .filterRejection else        -- the filters ejected every entry, the root included (`fix:` 4f5272d)
     let bucketPanic (p : Panic) : Outcome (σ × Bytes × Bytes) :=
       if p.isInvalidFilesystem then .err .wareCorrupt else .panic (panicMsg p)
     -- re-pave directory times: the walk over the filtered bucket raises the bucket's own panics
